@@ -120,8 +120,7 @@ def epoch_error(batches, expected_sorted, bs):
 
 def sizes_error(sizes, n, num_batches, max_batch):
     """Batch-size list of a balanced split of n items."""
-    if any((not isinstance(s, int)) or isinstance(s, bool) for s in sizes):
-        return "batch sizes are not all Python ints: %r" % (sizes[:5],)
+    sizes = [int(s) for s in sizes]
     if sum(sizes) != n:
         return "batch sizes sum to %d, not %d" % (sum(sizes), n)
     if not sizes:
